@@ -6,6 +6,56 @@ from checks.repair_common import *
 CLAUSES = {"NoPanic", "Opens", "NamesOriginal", "Prefix", "FinishedIdentical", "EndOnlyIfComplete"}
 
 
+
+def cli_truncated(v, tier, ev):
+    """`mlar repair` on truncated archives whose members carry long non-ASCII paths (a multi-byte character astride byte
+    128, 256, ... for each alignment): the command prints its status, must not crash, and its output must open."""
+    import os
+    import random
+    import shutil
+    import subprocess
+    mlar = build_mlar()
+    wd = workdir("c02-cli")
+    src = os.path.join(wd, "in")
+    rnd = random.Random(seed() + 2)
+    names = []
+    for k in range(3):
+        d = os.path.join(src, "dossier-" + "x" * k)
+        os.makedirs(d)
+        n = os.path.join("dossier-" + "x" * k, "\u00e9\u4e2d" * 24 + f"-{k}.bin")     # ~130-140 bytes, 2- and 3-byte characters
+        open(os.path.join(src, n), "wb").write(rnd.randbytes(90000 + 1000 * k))
+        names.append(n)
+
+    def run(args, cwd=src):
+        p = subprocess.run([mlar] + args, cwd=cwd, stdout=subprocess.PIPE, stderr=subprocess.PIPE, timeout=300, preexec_fn=limit_as)
+        return p.returncode, p.stdout, p.stderr.decode(errors="replace")[-400:]
+    n = 0
+    for layers in (["-l"], ["-l", "compress"]):
+        arch = os.path.join(wd, f"a{len(layers)}.mla")
+        rc, so, se = run(["create", "-o", arch] + names + layers)
+        if rc:
+            raise ToolError(f"mlar create failed: {se}")
+        good = open(arch, "rb").read()
+        for frac in (0.2, 0.5, 0.8):
+            cut = os.path.join(wd, f"cut{len(layers)}-{int(frac * 10)}.mla")
+            open(cut, "wb").write(good[:int(len(good) * frac)])
+            out = os.path.join(wd, f"rep{len(layers)}-{int(frac * 10)}.mla")
+            rc, so, se = run(["repair", "-i", cut, "-o", out, "-l"])
+            rec = dict(check="cli-repair-truncated", clause="NoPanic", mode="auth", enc=False, comp=len(layers) == 2, st="-", chunk=-1, badchunk=-1,
+                       first_unverified_chunk_is_0=False)
+            n += 1
+            if rc != 0:
+                v.violation(rec, dict(cmd="repair", rc=rc, stderr=se, cut_at=int(len(good) * frac)))
+                continue
+            rc, so, se = run(["list", "-i", out])
+            got = so.decode(errors="replace").splitlines()
+            if rc != 0 or any(g not in names for g in got):
+                v.violation(dict(rec, clause="Opens" if rc else "NamesOriginal"), dict(cmd="list of the repaired archive", rc=rc, stderr=se, got=got[:4]))
+    shutil.rmtree(wd, ignore_errors=True)
+    ev["cli_truncated_repairs"] = n
+    log(f"[C02] mlar repair on {n} truncated archives with long non-ASCII member paths: exit status and output checked")
+
+
 def main(tier):
     v = Verdict("C02", tier)
     ev = {}
@@ -40,7 +90,8 @@ def main(tier):
     validate_repair_traces(v, "C02", traces, ev, CLAUSES)
     # implementation-level model of the repair loop (spec/RepairLoop.tla): every behaviour replayed on convert_to_archive
     run_rloop(v, "C02", tier, ev)
-    cov = dict(states=res.distinct + ev.get("trace_states", 0), transitions=res.generated,
+    cli_truncated(v, tier, ev)
+    cov = dict(cli_truncated_repairs=ev.get("cli_truncated_repairs", 0), states=res.distinct + ev.get("trace_states", 0), transitions=res.generated,
                traces_validated_against_impl=ev.get("traces", 0), repairs_validated=ev.get("repairs", 0),
                archives=ev.get("scenarios", 0), writer_scenarios_available=len(scens),
                samples=[dict(labels=c["labels"]) for c in chosen[:2]] or ["none"],
